@@ -1156,7 +1156,7 @@ fn main() {
     let mut id: u64 = 0;
 
     // ---- dc: fixed shapes (doc.rs unit tests and boundary cases), then generated
-    {
+    if std::env::args().nth(1).as_deref() != Some("vr") {
         let fixed_src: &[&str] = &[
             "/// Javadoc summary\n/// Maybe there's another name for these...\n/// ... but Java is the first place I saw these types of comments.\n",
             "/** Javadoc summary\n * Maybe there's another name for these...\n * ... but Java is the first place I saw these types of comments.\n */\n",
@@ -1199,6 +1199,9 @@ fn main() {
         }
     }
 
+    // `c19 vr`: only the version-syntax stream (also part of C05's check: what a declared
+    // `versions = …` means is C05's first clause)
+    let only_vr = std::env::args().nth(1).as_deref() == Some("vr");
     // ---- vr: all four spellings over literal pools (exhaustive pairs), then random
     {
         let pool: Vec<VSpec> = GOOD_VERS
@@ -1225,6 +1228,11 @@ fn main() {
             let (a, b) = (mk(&mut rng), mk(&mut rng));
             vr_case(&mut out, &mut id, &VSyn::FromUntil(a, b));
         }
+    }
+
+    if only_vr {
+        out.flush();
+        return;
     }
 
     // ---- md: metadata deserialisation + validation + to_api_endpoint_fn
